@@ -83,6 +83,7 @@ func c16Bodies(t byte, flags byte) [][]byte {
 }
 
 func c16Exec(frame []byte) *core.Finding {
+	resetGlobals()
 	fb := frame[0]
 	t := fb >> 4
 	mk := func(class, what string) *core.Finding {
